@@ -246,7 +246,8 @@ def judge_world(v, h, wbs, plan, sessions, impl, model):
             v.corr_broken.append((case, "missing result impl=%s model=%s" % (str(a)[:200], str(m)[:200])))
             continue
         waits = any(r.get("outcome") == "waiting" for ev in m["events"] if ev["ev"] == "flush" for r in ev["results"])
-        if a.get("timeout") and waits and s.get("timeout", 5.0) < 10:
+        nwaits = sum(1 for ev in m["events"] if ev["ev"] == "flush" and any(r.get("outcome") == "waiting" for r in ev["results"]))
+        if a.get("timeout") and waits and 9.5 * nwaits > s.get("timeout", 5.0) - 1.5:
             v.bump("skipped: sender waits longer than the session was given")
             continue
         if a.get("timeout"):
